@@ -152,7 +152,7 @@ fn check_backend<F: Backend>(
         // -------- obligation 1: operand sampling
         for (i, &n) in order.iter().enumerate().chain(subset.iter().filter(|i| sub_iv.contains_key(i)).map(|&i| (i + order.len(), &order[i]))) {
             // indices >= order.len() denote "node i of the partial-export function"
-            let (i, i_n) = if i >= order.len() { (i - order.len(), sub_iv[&(i - order.len())]) } else { (i, ivs[i]) };
+            let (_i, i_n) = if i >= order.len() { (i - order.len(), sub_iv[&(i - order.len())]) } else { (i, ivs[i]) };
             let (opname, ia, ib, is_bin) = match *b.ctx.get_op(n).unwrap() {
                 Op::Unary(o, a) => (map_un(o).name(), ivs[idx[&a]], Interval::from(0.0), false),
                 Op::Binary(o, a, c) => (map_bin(o).name(), ivs[idx[&a]], ivs[idx[&c]], true),
